@@ -814,3 +814,34 @@ fn oparm_replay() {
         Err(_) => println!("OBSERVED: a specialised arithmetic form panicked in the host"),
     }
 }
+
+// ---------------------------------------------------------------------------------------------
+// E3q replay (C17): a "serve forever" loop that runs each unit of work under an error handler and carries on.  One
+// interrupt() 300 ms into the run must stop the evaluation (watchdog 12 s).
+#[test]
+fn interrupt_handler_replay() {
+    use std::sync::mpsc;
+    use std::time::Duration;
+    let (ctl_tx, ctl_rx) = mpsc::channel();
+    let (started_tx, started_rx) = mpsc::channel::<()>();
+    let (out_tx, out_rx) = mpsc::channel::<Result<String, String>>();
+    std::thread::spawn(move || {
+        let mut engine = Engine::new();
+        ctl_tx.send(engine.get_thread_state_controller()).unwrap();
+        engine
+            .run("(define (work) (with-handler (lambda (e) 'caught) (let loop ((i 0)) (if (< i 200000) (loop (+ i 1)) 'done)))) (define (serve n) (work) (serve (+ n 1)))".to_string())
+            .unwrap();
+        started_tx.send(()).unwrap();
+        let r = engine.run("(serve 0)".to_string()).map(|v| v.last().map(|x| x.to_string()).unwrap_or_default()).map_err(|e| e.to_string());
+        let _ = out_tx.send(r);
+    });
+    let controller = ctl_rx.recv().unwrap();
+    started_rx.recv().unwrap();
+    std::thread::sleep(Duration::from_millis(300));
+    controller.interrupt();
+    match out_rx.recv_timeout(Duration::from_secs(12)) {
+        Ok(Err(e)) if e.contains("Interrupted") => println!("COMPLETED: the serving loop stopped with the interruption error"),
+        Ok(other) => println!("COMPLETED: the evaluation ended with {:?}", other),
+        Err(_) => println!("OBSERVED: a loop that runs its work under with-handler was still running 12 s after interrupt() returned: the handler caught the one interruption error and the request was gone"),
+    }
+}
